@@ -271,7 +271,11 @@ def r7_loader_branches(ctx):
                     if isinstance(n, ast.Assign) and len(n.targets) == 1 and isinstance(n.targets[0], ast.Name):
                         out[n.targets[0].id] = n.value
             return out
-        a, b = assigned(branch.body), assigned(branch.orelse)
+        try:
+            path_first = bool(A.ev(branch.test, {pvar: '/some/dir'}))
+        except A.NotClosed as e:
+            raise AnalysisError('%s: branch test on %s not closed: %s' % (key, pvar, e))
+        a, b = (assigned(branch.body), assigned(branch.orelse)) if path_first else (assigned(branch.orelse), assigned(branch.body))
         ok = set(a) == set(b) and len(a) == 1
         yield Ob(key + ' both branches bind the same stream', ok, ctx.floc(fn, branch),
                  '' if ok else 'path branch binds %s, resource branch binds %s' % (sorted(a), sorted(b)))
